@@ -31,6 +31,7 @@ func newSchemaGenerator(
 		schemaFileName:   fileName,
 		output:           output,
 		schemaTypesByRef: make(map[string]*schemas.Type),
+		allOfInProgress:  make(map[*schemas.Type]bool),
 	}
 }
 
@@ -40,6 +41,8 @@ type schemaGenerator struct {
 	schema           *schemas.Schema
 	schemaFileName   string
 	schemaTypesByRef map[string]*schemas.Type
+	// allOfInProgress holds the first member of every allOf list that is being merged.
+	allOfInProgress map[*schemas.Type]bool
 }
 
 func (g *schemaGenerator) generateRootType() error {
@@ -916,6 +919,19 @@ func (g *schemaGenerator) generateAnyOfType(anyOf []*schemas.Type, scope nameSco
 }
 
 func (g *schemaGenerator) generateAllOfType(allOf []*schemas.Type, scope nameScope) (codegen.Type, error) {
+	// An allOf list that is reached again while it is being merged is recursive (a definition
+	// with a property that is an allOf over the definition itself): the merged struct shares
+	// the property nodes, so expanding it would never end. Like a recursive anyOf, it stays
+	// untyped at that point.
+	if len(allOf) > 0 && allOf[0] != nil {
+		if g.allOfInProgress[allOf[0]] {
+			return codegen.EmptyInterfaceType{}, nil
+		}
+
+		g.allOfInProgress[allOf[0]] = true
+		defer delete(g.allOfInProgress, allOf[0])
+	}
+
 	rAllOf, err := g.resolveRefs(allOf)
 	if err != nil {
 		return nil, err
